@@ -819,7 +819,7 @@ Proof.
     destruct (IHxstar sa eq_refl C) as (sb & A' & B' & C'). exists sb. split; [econstructor; eauto|auto].
 Qed.
 
-(* the class of inputs on which the code as it is (fx = false) agrees with the reference is closed
+(* the class of inputs on which the parser without the I64 exclusion (fx = false) agrees with the reference is closed
    under taking prefixes *)
 Theorem i64_never_chop : forall D r, r <= length D -> i64_never_in_key_position D -> i64_never_in_key_position (chop r D).
 Proof.
@@ -1126,7 +1126,7 @@ Proof. intro d. rewrite fast_eq_ref_fixed. now rewrite ref_fx_irrelevant. Qed.
 Lemma obs_code_ref : fast_path_excludes_i64 = true -> forall d, obs (parse_opt d) = obs (parse_ref d).
 Proof. intros E d. unfold parse_opt. rewrite E. apply obs_fixed_ref. Qed.
 
-(* the code as it is (fx = false) on the class of inputs of C03_fast_eq_ref_no_i64 *)
+(* the parser without the I64 exclusion (fx = false) on the class of inputs of C03_fast_eq_ref_no_i64 *)
 Lemma obs_asis_ref : forall d, i64_never_in_key_position d -> obs (parse false true d) = obs (parse_ref d).
 Proof. exact fast_eq_ref_no_i64. Qed.
 
